@@ -152,6 +152,62 @@ def scaleCmd (j : Json) : R Json := do
   | "mse_loss" => pure (scalesJson (.ok (mseScales (← jnat j "numel") (← jbool j "mean"))))
   | _ => .error s!"unknown op {op}"
 
+partial def parseArg (v : Json) : R Arg :=
+  match v.getObjVal? "ref" with
+  | .ok i => do pure (.ref (← asNat i))
+  | .error _ =>
+    match v.getObjVal? "lit" with
+    | .ok l => match l.getStr? with
+      | .ok s => pure (.lit s)
+      | .error e => .error e
+    | .error _ =>
+      match v.getObjVal? "seq" with
+      | .ok xs => do
+        let arr ← match xs.getArr? with | .ok a => pure a | .error e => .error e
+        let items ← arr.toList.mapM parseArg
+        let t := match v.getObjVal? "tuple" with | .ok (Json.bool b) => b | _ => false
+        pure (.seq t items)
+      | .error _ => .error "bad arg"
+
+partial def argJson : Arg → Json
+  | .ref i => Json.mkObj [("ref", jn i)]
+  | .lit s => Json.mkObj [("lit", Json.str s)]
+  | .seq t xs => Json.mkObj [("seq", Json.arr (xs.map argJson).toArray), ("tuple", Json.bool t)]
+
+def parseNode (v : Json) : R GNode := do
+  let args ← (← jarr v "args").toList.mapM parseArg
+  let kwargs ← (← jarr v "kwargs").toList.mapM fun kv => do
+    match kv.getArr? with
+    | .ok #[k, a] => do pure ((k.getStr?.toOption.getD ""), ← parseArg a)
+    | _ => .error "bad kwarg"
+  let of := match v.getObjVal? "outputs_float_tensor" with | .ok (Json.bool b) => b | _ => false
+  let mf := match v.getObjVal? "fwd_mean_abs" with
+    | .ok x => match x.getNat? with | .ok n => some (ofBits n) | .error _ => none
+    | .error _ => none
+  let mb := match v.getObjVal? "bwd_mean_abs" with
+    | .ok x => match x.getNat? with | .ok n => some (ofBits n) | .error _ => none
+    | .error _ => none
+  pure { op := ← jstr v "op", target := ← jstr v "target", args := args, kwargs := kwargs,
+         outputsFloat := of, fwdMeanAbs := mf, bwdMeanAbs := mb }
+
+def nodeJson (n : GNode) : Json :=
+  Json.mkObj [("op", Json.str n.op), ("target", Json.str n.target), ("args", Json.arr (n.args.map argJson).toArray),
+    ("kwargs", Json.arr (n.kwargs.map fun (k, a) => Json.arr #[Json.str k, argJson a]).toArray)]
+
+def graphJson (g : Graph) : Json := Json.arr (g.map nodeJson).toArray
+
+def parseFmt (v : Json) : R Fmt := do
+  pure (Fmt.mk (← jnat v "E") (← jnat v "M") (← jstr v "rounding") (← jnat v "srbits")).normalise
+
+def graphCmd (j : Json) : R Json := do
+  let g ← (← jarr j "nodes").toList.mapM parseNode
+  match ← jstr j "pass" with
+  | "simulate" =>
+      let fwd ← parseFmt (← jget j "fwd"); let bwd ← parseFmt (← jget j "bwd")
+      pure (Json.mkObj [("nodes", graphJson (simulateBackend fwd bwd g))])
+  | "identity" => pure (Json.mkObj [("nodes", graphJson g), ("wf", Json.bool (Graph.wellFormed g))])
+  | p => .error s!"unknown pass {p}"
+
 def parseLrVal (v : Json) : R (Option (LrVal Float)) :=
   match v with
   | Json.null => pure none
@@ -345,6 +401,7 @@ def handle (j : Json) : R Json := do
       let (_, tr) := acts.foldl (fun (acc : MState × List Json) a =>
         let s' := act acc.1 a; (s', acc.2 ++ [st s'])) (MState.fresh, [])
       pure (Json.mkObj [("trace", Json.arr tr.toArray)])
+  | "graph" => graphCmd j
   | "groups" => groupsCmd j
   | "zerostep" =>
       let lr ← jflt j "lr"; let wd ← jflt j "wd"; let p ← jflt j "p"
